@@ -59,7 +59,12 @@ func verifU8(name string) uint8       { return uint8(verifValue(name)) }
 func verifInt(name string) int        { return int(verifValue(name)) }
 func verifUint(name string) uint      { return uint(verifValue(name)) }
 func verifBool(name string) bool      { return verifValue(name) != 0 }
-func verifChoose(n int) int           { return int(verifValue("__choose")) }
+func verifChoose(n int) int {
+	if n <= 1 {
+		return 0
+	}
+	return int(verifValue("__choose"))
+}
 func verifSched(preemptions int)      {}
 func verifYield()                     {}
 func verifSortTies(on bool)           {}
